@@ -43,6 +43,9 @@ type sockState struct {
 	openedBy  int
 	readers   int
 	owner     string
+	// timeWait: a TCP connection this side closed first lingers in TIME_WAIT until this virtual time;
+	// its local port can be bound again only by a socket that has SO_REUSEADDR set
+	timeWait int64
 	// family: the network string the socket was opened with ("udp" on the wildcard address is a
 	// dual-stack socket: it also receives datagrams that arrive over IPv6; "udp4" does not)
 	family string
@@ -122,6 +125,9 @@ func (n *Network) sock(fd int) *sockState { return n.socks[fd] }
 
 func (n *Network) portInUse(proto string, port int, reuse bool) bool {
 	for _, s := range n.socks {
+		if s.closed && s.proto == "tcp" && proto == "tcp" && s.localPort == port && s.timeWait > n.e.clock && !reuse {
+			return true // TIME_WAIT: only SO_REUSEADDR lets the port be bound again
+		}
 		if !s.closed && s.proto == proto && s.localPort == port {
 			if !(reuse && s.reuse) {
 				return true
@@ -310,6 +316,10 @@ func closeSock(n *Network, s *sockState) error {
 		return opErr("close", s.proto, s, errClosed)
 	}
 	s.closed = true
+	if s.proto == "tcp" && s.peer != "" && !s.eof && !s.rst {
+		// active close: this side goes through TIME_WAIT (2 x MSL = 60 s)
+		s.timeWait = e.clock + int64(60*time.Second)
+	}
 	e.note(e.cur, "close")
 	return nil
 }
